@@ -19,10 +19,10 @@ import (
 
 // fixed programs pre-deployed (genesis) for the block path
 var (
-	blockProgB = []int{aXfer, aSClear}                // moves value out, earns a refund
-	blockProgC = []int{aCall + aSDSelf, aCreate}      // destroys value (self-destruct to self in a callee), creates a child
-	blockInit  = []int{aSSet}                         // init code of the creation transaction
-	hBig       = uint64(10000000)                     // header gas limit under which nothing is exhausted
+	blockProgB = []int{aXfer, aSClear}           // moves value out, earns a refund
+	blockProgC = []int{aCall + aSDSelf, aCreate} // destroys value (self-destruct to self in a callee), creates a child
+	blockInit  = []int{aSSet}                    // init code of the creation transaction
+	hBig       = uint64(10000000)                // header gas limit under which nothing is exhausted
 	bigPrice   = new(big.Int).Exp(big.NewInt(10), big.NewInt(19), nil)
 )
 
@@ -30,7 +30,7 @@ var (
 type menuTx struct {
 	Name   string
 	Sender int
-	NonceD int // -1, 0, +1
+	NonceD int    // -1, 0, +1
 	Value  string // "0" | "1" | "balance+1"
 	Gas    string // "intrinsic-1" | "intrinsic" | number
 	Price  *big.Int
@@ -179,11 +179,9 @@ func (b *blockRun) fail(oracle, what string) {
 }
 
 type blockWorld struct {
-	menus    [nForks][]builtTx
-	base     *snapshot
-	cache    sync.Map // key -> *blockRun
-	runs     int64
-	runsLock sync.Mutex
+	menus [nForks][]builtTx
+	base  *snapshot
+	cache sync.Map // key -> *blockRun
 }
 
 var bw *blockWorld
@@ -201,10 +199,6 @@ func buildBlockWorld() {
 		panic(err)
 	}
 	bw.base = s
-}
-
-func commitReal(bo *blockchain.BlockOperations, c blockCase, txs types.Transactions) (st interface{}, vals []*types.Validator, info *types.BlockInfo, err error, panicked string) {
-	return
 }
 
 // runBlock executes the real commitBlock on a fresh copy of the head state and applies the
